@@ -155,6 +155,8 @@ pub fn filter_lists() -> Vec<(&'static str, Vec<FilterSpec>)> {
         ("prepend_text", vec![FilterSpec::text("prepend_text", S1)]),
         // a text replacement emits its content once and swallows the rest: the codec stages still have to see every chunk
         ("replace_text", vec![FilterSpec::text("replace_text", S1)]),
+        // an HTML stage BEFORE a text replacement: it still has to see decoded text
+        ("append[html,body]+replace_text", vec![FilterSpec::html("append_child", &["html", "body"], None, S2), FilterSpec::text("replace_text", S1)]),
         // a buffering HTML filter (selector) followed by a second HTML stage
         (
             "append[div]sel+prepend[html,body]",
